@@ -139,6 +139,67 @@ def lockstep_case(args):
         sc.close()
 
 
+def component_command_case(args):
+    """bundled components that run a command or read a file of their own (CommandToParams, FileToParamsReader) are processes
+    like any other: outside the upstream closure of a RunTo target, or in a workflow that Run refuses, their command is not
+    executed"""
+    seed, i = args
+    rng = random.Random(seed * 198491329 + i)
+    hx = vlib.hx
+    sp = t3.Spec(maxtasks=rng.randint(1, 3), bufsize=rng.choice([1, 2, 128]))
+    L = rng.randint(1, 3)
+    paths = ["k%d.txt" % j for j in range(L)]
+    for p in paths:
+        sp.files[p] = p + "\n"
+    s = sp.src("src", paths)
+    a = sp.proc(t3.Proc("prep", kind="cattok", ins=[("a", [(s, "out")])], outs=[("o", "{i:a}.prep")]))
+    lister = sp.raw("COMP c2p %s %s" % (hx("lister"), hx("echo ran >> lister.ran; echo v1; echo v2")))
+    mode = ["runto", "unwired-in", "unwired-param", "full"][i % 4]
+    side = t3.Proc("side", kind="write", pars=[("q", ("U", lister))], outs=[("o", "side.{p:q}.txt")])
+    sp.proc(side)
+    if mode == "runto":
+        sp.runto = [a]
+        sp.runto_mode = rng.choice(["N", "R", "P"])
+    elif mode == "unwired-in":
+        sp.proc(t3.Proc("loose", kind="cat", ins=[("x", [])], outs=[("o", "{i:x}.loose")]))
+    elif mode == "unwired-param":
+        side.pars = list(side.pars) + [("zz", ("N",))]
+    sc = t3.Scratch()
+    try:
+        sc.plant(sp.files)
+        impl = t3.run_impl(sc, sp, timeout=30)
+        problems = []
+        ran = "lister.ran" in impl["fs"]
+        files = t3.data_files(impl["fs"])
+        if mode == "runto":
+            if impl["rc"] != 0 or not impl["returned"]:
+                problems.append(("unexpected-failure", "RunTo(prep) fails: %s" % impl["stderr"][-200:]))
+            if ran:
+                problems.append(("runto-executes-other", "RunTo(prep) executed the command of the CommandToParams component 'lister', which is not upstream of prep"))
+            if any(f.startswith("side.") for f in files):
+                problems.append(("runto-executes-other", "RunTo(prep) executed tasks of 'side'"))
+            if [p for p in paths if p + ".prep" not in files]:
+                problems.append(("runto-incomplete", "RunTo(prep) did not produce all outputs of prep"))
+        elif mode == "full":
+            want = set(p + ".prep" for p in paths) | {"side.v1.txt", "side.v2.txt"}
+            if impl["rc"] != 0 or not want <= set(files):
+                problems.append(("unexpected-failure", "the fully wired workflow fails or misses outputs %s: %s" % (sorted(want - set(files))[:3], impl["stderr"][-200:])))
+            if not ran:
+                problems.append(("component-not-run", "the CommandToParams component did not run its command"))
+        else:
+            if impl["timed_out"]:
+                problems.append(("unwired-hangs", "a workflow with an unconnected port hangs"))
+            elif impl["rc"] == 0:
+                problems.append(("unwired-runs", "a workflow with an unconnected port ran (exit 0)"))
+            if ran:
+                problems.append(("unwired-executes", "Run refused the workflow (an unconnected port), but the command of the CommandToParams component had been executed"))
+            if t3.started_keys(impl["trace"]) or any(f not in sp.files and f != "lister.ran" for f in files):
+                problems.append(("unwired-executes", "commands were executed although a port is unconnected"))
+        return {"spec": sp.text(), "bufsize": sp.bufsize, "problems": problems, "ntasks": L, "rc": impl["rc"], "stderr": impl["stderr"][-200:], "yield": None, "wall": impl["wall"], "kind": "component-" + mode}
+    finally:
+        sc.close()
+
+
 def run(rep, tier, seed):
     proved = vlib.prove(rep, MODULE, THEOREMS)
     ok, msg = vlib.build_ocaml()
@@ -149,10 +210,11 @@ def run(rep, tier, seed):
     results += t3.run_many(runto_case, [(seed, i) for i in range(n)])
     results += t3.run_many(drain_case, [(seed, i) for i in range(n // 4)])
     results += t3.run_many(lockstep_case, [(seed, i) for i in range(n // 5)])
+    results += t3.run_many(component_command_case, [(seed, i) for i in range(n // 5)])
     t3.report_t3(rep, MODULE, proved, results, "T3 unconnected ports / RunTo")
     rep.cov["evaluations"] = len(results)
     rep.cov["distinct_nontrivial"] = len({r["spec"] for r in results})
-    rep.cov["rule"] = "unconnected: a random workflow in which one in-port loses its connection or one extra parameter port is created and never connected -- must exit non-zero, execute no command, create no file; RunTo: random workflows run to 1-2 random target processes by name, by regular expression or by process value, plus FromStr feeders longer than the buffer upstream of the target -- executed tasks and files must be exactly those of the upstream closure as computed by the reference evaluator; drain: a dangling file out-port and an unread parameter source together, one of them longer than the buffer after the other has closed -- the run must complete; lock-step: a component emitting a parameter and a file alternately, the parameters unconsumed or cut off by RunTo, more pairs than the buffer holds -- all tasks of the process that is run must execute; every case distinct"
+    rep.cov["rule"] = "unconnected: a random workflow in which one in-port loses its connection or one extra parameter port is created and never connected -- must exit non-zero, execute no command, create no file; RunTo: random workflows run to 1-2 random target processes by name, by regular expression or by process value, plus FromStr feeders longer than the buffer upstream of the target -- executed tasks and files must be exactly those of the upstream closure as computed by the reference evaluator; drain: a dangling file out-port and an unread parameter source together, one of them longer than the buffer after the other has closed -- the run must complete; lock-step: a component emitting a parameter and a file alternately, the parameters unconsumed or cut off by RunTo, more pairs than the buffer holds -- all tasks of the process that is run must execute; component: a CommandToParams component whose command leaves a mark, outside the closure of a RunTo target / in a refused workflow / in a fully wired one -- the mark must appear only in the last; every case distinct"
     rep.cov["samples"] = [results[0]["spec"], results[-1]["spec"]]
     kinds = {}
     for r in results:
